@@ -107,6 +107,79 @@ def fam_normal_forms(chk, da):
     c08_nf.fam_normal_forms(chk, da)
 
 
+def fam_demanding_kernels(chk, da):
+    """Block functions that DEMAND what the unoptimized program gives them (a whole window per block under map_overlap / map_blocks,
+    a non-empty block): "optimization never turns a computable program into one that raises".  For slices of the result near the
+    ends and the block seams, the program must compute without optimization (else the case is skipped) and then also with it, to
+    the same values."""
+    import random as _random
+    import dask
+    rng = _random.Random(f"C08-demanding-{chk.seed}")
+    for it in range(300 if chk.tier == "thorough" else 45):
+        d_l, d_r = rng.choice([(1, 1), (2, 2), (2, 2), (3, 3), (2, 0), (0, 3), (1, 2)])
+        window = d_l + d_r + 1
+        csize = rng.choice([window + 1, window + 3, 10])
+        nblocks = rng.choice([2, 3, 4])
+        n = csize * nblocks
+        kind = rng.choice(["none", "none", "reflect", "periodic", "nearest"])
+        if kind != "none" and d_l != d_r:
+            d_r = d_l
+            window = 2 * d_l + 1
+
+        def kernel(b, _w=window, _l=d_l, _r=d_r):
+            if b.shape[0] < _w:
+                raise ValueError(f"block of {b.shape[0]} rows is smaller than the window ({_w})")
+            c = np.concatenate([np.zeros((1,) + b.shape[1:]), np.cumsum(b, axis=0)], axis=0)
+            m = b.shape[0]
+            lo = np.maximum(np.arange(m) - _l, 0)
+            hi = np.minimum(np.arange(m) + _r + 1, m)
+            return c[hi] - c[lo]
+        arr = np.arange(float(n * 3)).reshape(n, 3) % 11
+        x = da.from_array(arr, chunks=((csize,) * nblocks, (3,)))
+        depth0 = d_l if d_l == d_r else (d_l, d_r)
+        try:
+            with warnings.catch_warnings():
+                warnings.simplefilter("ignore")
+                r = da.map_overlap(kernel, x, depth={0: depth0, 1: 0}, boundary={0: kind, 1: "none"}, trim=True, dtype="float64")
+                full = np.asarray(r.compute(scheduler="sync"))
+        except Exception:  # noqa: BLE001
+            chk.count("demanding:full-program-raises")
+            continue
+        edges = sorted({0, 1, 2, d_l, d_l + 1, n - d_r - 1, n - d_r, n - 2, n - 1, n, csize - 1, csize, csize + 1, csize + d_r + 1})
+        edges = [e for e in edges if 0 <= e <= n]
+        for _ in range(6):
+            lo = rng.choice(edges)
+            hi = rng.choice([e for e in edges if e > lo] or [n])
+            if hi <= lo:
+                continue
+            desc = {"program": f"map_overlap(window kernel {window}, depth=({d_l},{d_r}), boundary={kind})[{lo}:{hi}]", "chunks": (csize,) * nblocks}
+            chk.count("demanding:" + kind)
+            chk.case(("demanding", kind, d_l, d_r, csize, nblocks, lo, hi, it), nontrivial=True)
+            try:
+                with warnings.catch_warnings(), dask.config.set({"array.optimize-graph": False}):
+                    warnings.simplefilter("ignore")
+                    ref = np.asarray(r[lo:hi].compute(scheduler="sync"))
+            except Exception:  # noqa: BLE001
+                chk.count("demanding:not-computable-unoptimized")
+                continue
+            try:
+                with warnings.catch_warnings():
+                    warnings.simplefilter("ignore")
+                    y = r[lo:hi]
+                    y.expr.optimize()
+                    got = np.asarray(y.compute(scheduler="sync"))
+            except Exception as e:  # noqa: BLE001
+                chk.violation(f"optimization turns a computable program into one that raises: {type(e).__name__}: {str(e)[:90]}", desc,
+                              signature={"class": "optimized-raises", "fn": "map_overlap", "boundary": kind, "error": type(e).__name__})
+                continue
+            keep = np.ones(hi - lo, dtype=bool) if kind != "none" else np.array([d_l <= p < n - d_r for p in range(lo, hi)], dtype=bool)
+            if got.shape != ref.shape or not np.array_equal(got[keep], ref[keep]):
+                chk.violation("the optimized program computes other values than the unoptimized one", {**desc, "got": got.tolist(), "want": ref.tolist()},
+                              signature={"class": "optimized-value", "fn": "map_overlap", "boundary": kind})
+            else:
+                chk.traces_validated += 1
+
+
 def replay(path):
     print(open(path).read())
 
@@ -132,6 +205,7 @@ def run(chk: Check):
                        "has no opaque inner node"]
     chk.run_proofs()
     fam_normal_forms(chk, da)
+    fam_demanding_kernels(chk, da)
     import c01
     for tag, prog, sources in c01.CORPUS:
         if tag in ("F11a", "F11b", "F18", "F20"):
